@@ -2,7 +2,8 @@
   C17 — property theorems (model and spec: ShelxModel/C17.lean).
 
   Quantified over ALL files (any atom list, any residue registry) and ALL restraints (any keyword text, any
-  token list) that satisfy the decidable predicate `WellFormed`; no bound on sizes. Core Lean only.
+  token list) that satisfy the decidable predicate `WellFormed`; no bound on sizes. Core Lean only
+  (imports ShelxProps.C05 for the layout theorems; that file is core Lean as well).
 
     warnings_eq_missing       reported (NAME, residue) pairs = missing pairs, as sets
     history_statement         the same after ANY history of edits / evaluations / attribute assignments (no hypothesis
@@ -11,10 +12,18 @@
     no_warning_if_all_exist   nothing missing, class known  =>  no message at all
     message_iff               a message exists  <=>  something is missing or the class has no residues
     wildcards_never_reported  no hypothesis: `$E`, `NAME_$n`, `<`, `>`, `=` are never among the reported names
+    named_eq_missing          the names that stand in the message (after `set()` / `sort()`) = missing pairs: the step
+                              loses and invents nothing, however many atoms are absent and however alike their names
+    layout_warnings_eq_missing  the same from the PHYSICAL lines of the file: wrapped with `=`, `!` comments with any
+                              content behind the `=` and behind the last line (layout specification: C05.norm,
+                              gluing model: C05.modelLogicalLines, tied by C05.glue_tokens), for every predicate that
+                              tells numerical parameters from atom names
+    layout_invariant_diagnostics  two layouts of one file (C05.LayoutEq) give the same diagnostics
   Witnesses (decide +kernel): one per repaired defect (`Legacy.*` = the code before fixes/C17_1..4), one per
   excluded input class, and concrete inputs that meet the hypotheses.
 -/
 import ShelxModel.C17
+import ShelxProps.C05
 
 namespace Shelx.C17
 
@@ -771,6 +780,180 @@ theorem wildcards_never_reported (f : File) (r : Restr) (o : Outcome) (h : assig
     ∀ s ∈ o.bad, addressable s = true :=
   evaluate_addressable _ r o h
 
+/-! ### from `bad_atoms` to the names in the message: `sorted(set(bad_atoms))` neither loses nor invents a name -/
+
+theorem mem_insertSorted (s t : Str) (l : List Str) : t ∈ insertSorted s l ↔ t = s ∨ t ∈ l := by
+  induction l with
+  | nil => simp [insertSorted]
+  | cons x xs ih =>
+    unfold insertSorted
+    split
+    · rename_i h
+      subst h
+      simp
+    · split
+      · simp
+      · simp only [List.mem_cons, ih]
+        constructor
+        · rintro (h | h | h)
+          · exact .inr (.inl h)
+          · exact .inl h
+          · exact .inr (.inr h)
+        · rintro (h | h | h)
+          · exact .inr (.inl h)
+          · exact .inl h
+          · exact .inr (.inr h)
+
+/-- every name the loop collected is printed, and nothing else is -/
+theorem mem_printed (bad : List Str) (s : Str) : s ∈ printed bad ↔ s ∈ bad := by
+  induction bad with
+  | nil => simp [printed]
+  | cons b bs ih =>
+    have : printed (b :: bs) = insertSorted b (printed bs) := rfl
+    rw [this, mem_insertSorted, ih]
+    simp
+
+theorem mem_named (o : Outcome) (p : Str × Nat) : p ∈ named o ↔ p ∈ reported o := by
+  simp only [named, reported, List.mem_map, mem_printed]
+
+/-- **named_eq_missing**: the (NAME, residue) pairs that stand in the message — after `bad_atoms` went through
+    `set()` and `sort()` — are exactly the addressed pairs that do not exist; any number of them may be absent at once,
+    and names may differ in a single character (C1A / C1B / C1' / C1"). Hypotheses as for `warnings_eq_missing`. -/
+theorem named_eq_missing (f : File) (r : Restr) (h : WellFormed f r) :
+    ∃ o, assign f r = .ok o ∧ ∀ p, p ∈ named o ↔ p ∈ missing f r := by
+  obtain ⟨o, h1, h2⟩ := warnings_eq_missing f r h
+  exact ⟨o, h1, fun p => (mem_named o p).trans (h2 p)⟩
+
+/-! ### the case of the keyword -/
+
+theorem toUpper_not_lower (c : Char) : c.toUpper.isLower = false := by
+  unfold Char.toUpper
+  split
+  · rename_i hc
+    simp only [UInt32.le_iff_toNat_le] at hc
+    have h4 : 'a'.val.toNat = 97 := by decide
+    have h5 : 'z'.val.toNat = 122 := by decide
+    have h7 : ('A'.val - 'a'.val).toNat = 4294967264 := by decide
+    simp only [Char.isLower, Bool.and_eq_false_iff, decide_eq_false_iff_not, UInt32.le_iff_toNat_le, UInt32.toNat_add, h4, h5, h7]
+    omega
+  · rename_i hc
+    simp only [Char.isLower, Bool.and_eq_false_iff, decide_eq_false_iff_not]
+    by_cases h : 'a'.val ≤ c.val
+    · right; intro h2; exact hc ⟨h, h2⟩
+    · left; exact h
+
+theorem toUpper_idem (c : Char) : c.toUpper.toUpper = c.toUpper :=
+  toUpper_of_not_lower (by simp [toUpper_not_lower c])
+
+theorem upper_idem (s : Str) : upper (upper s) = upper s := by
+  simp [upper, toUpper_idem]
+
+theorem toUpper_eq_dollar {c : Char} (h : c.toUpper = '$') : c = '$' := by
+  unfold Char.toUpper at h
+  split at h
+  · rename_i hc
+    exfalso
+    have h2 := congrArg Char.val h
+    simp only [UInt32.le_iff_toNat_le] at hc
+    have h3 := congrArg UInt32.toNat h2
+    simp [UInt32.toNat_add] at h3
+    have h4 : 'a'.val.toNat = 97 := by decide
+    have h5 : 'z'.val.toNat = 122 := by decide
+    have h6 : c.val.toNat = c.toNat := rfl
+    omega
+  · exact h
+
+theorem dollar_mem_upper {s : Str} : '$' ∈ upper s ↔ '$' ∈ s := by
+  induction s with
+  | nil => simp [upper]
+  | cons c s ih =>
+    simp only [upper_cons, List.mem_cons, ih]
+    constructor
+    · rintro (h | h)
+      · left; exact (toUpper_eq_dollar h.symm).symm
+      · right; exact h
+    · rintro (h | h)
+      · left; rw [← h]; decide
+      · right; exact h
+
+/-- the code reads the keyword in upper case wherever it reads it: a keyword and its upper-case spelling give the
+    same diagnostics … -/
+theorem assign_upper_kw (f : File) (k : Str) (a : List Str) :
+    assign f { kw := upper k, atoms := a } = assign f { kw := k, atoms := a } := by
+  simp only [assign, evaluate, kwClass, kwNumbers, us_mem_upper, dollar_mem_upper, upper_idem]
+
+/-- … and address the same residues -/
+theorem missing_upper_kw (f : File) (k : Str) (a : List Str) :
+    missing f { kw := upper k, atoms := a } = missing f { kw := k, atoms := a } := by
+  simp only [missing, addressed, kwAddressed, kwSfx, upper_idem]
+
+/-! ### from the physical lines of the file to the diagnostics -/
+
+theorem restrOf_upperHead (isNum : Str → Bool) (sp : List Str) (r : Restr)
+    (h : restrOf isNum (C05.upperHead sp) = some r) :
+    ∃ k rest, sp = k :: rest ∧ r = { kw := upper k, atoms := rest.filter fun t => !isNum t } ∧
+      restrOf isNum sp = some { kw := k, atoms := rest.filter fun t => !isNum t } := by
+  cases sp with
+  | nil => simp [C05.upperHead, restrOf] at h
+  | cons k rest =>
+    simp only [C05.upperHead, restrOf, Option.some.injEq] at h
+    exact ⟨k, rest, rfl, h.symm, rfl⟩
+
+theorem mapOk_ok {α β} (g : α → β) (e : Except C05.PyErr (List α)) (n : List β) (h : C05.mapOk g e = .ok n) :
+    ∃ ls, e = .ok ls ∧ ls.map g = n := by
+  cases e with
+  | error x => simp [C05.mapOk] at h
+  | ok ls =>
+    simp only [C05.mapOk, Except.ok.injEq] at h
+    exact ⟨ls, rfl, h⟩
+
+/-- **layout_warnings_eq_missing**: start from the PHYSICAL lines of any file. If line `i` of its normal form
+    (`C05.norm`: the specification of wrapping with `=` and of `!` comments — whatever stands behind a `!`, further `=`
+    and `!` included, is no part of the instruction; the tokens of continuation lines follow in order) is a restraint
+    `r` in the domain of `warnings_eq_missing`, then the code's own way — glue the physical lines, split, build the
+    restraint, check every atom, `set()`, `sort()` — names exactly the pairs `missing f r`. For every predicate `isNum`
+    that tells parameters from atom names. No hypothesis on the layout beyond its validity (`norm ≠ none`:
+    continuation lines are indented, no `=` on the last line of the file). -/
+theorem layout_warnings_eq_missing (isNum : Str → Bool) (f : File) (lines : List C05.Line) (i : Nat) (r : Restr)
+    (hr : restrOfLines isNum lines i = some r) (h : WellFormed f r) :
+    ∃ o, assignLines isNum f lines i = some (.ok o) ∧ ∀ p, p ∈ named o ↔ p ∈ missing f r := by
+  unfold restrOfLines at hr
+  split at hr
+  · exact absurd hr (by simp)
+  · rename_i n hn
+    split at hr
+    · exact absurd hr (by simp)
+    · rename_i toks hi
+      obtain ⟨ls, hls, hmap⟩ := mapOk_ok _ _ _ (C05.glue_tokens lines n hn)
+      rw [← hmap, List.getElem?_map] at hi
+      cases hg : ls[i]? with
+      | none => simp [hg] at hi
+      | some g =>
+        simp only [hg, Option.map_some, Option.some.injEq] at hi
+        rw [← hi] at hr
+        obtain ⟨k, rest, hsp, hreq, hraw⟩ := restrOf_upperHead isNum _ r hr
+        obtain ⟨o, ho, hp⟩ := named_eq_missing f r h
+        refine ⟨o, ?_, hp⟩
+        unfold assignLines
+        rw [hls]
+        simp only [hg, hraw, Option.map_some]
+        rw [← assign_upper_kw, ← hreq, ho]
+
+/-- two layouts of the same file (wrap points, blanks, comments, keyword case, blank and comment lines: `C05.LayoutEq`)
+    give the same diagnostics for every restraint -/
+theorem layout_invariant_diagnostics {lines lines' : List C05.Line} (hl : C05.LayoutEq lines lines')
+    (isNum : Str → Bool) (f : File) (i : Nat) (r : Restr)
+    (hr : restrOfLines isNum lines i = some r) (h : WellFormed f r) :
+    ∃ o o', assignLines isNum f lines i = some (.ok o) ∧ assignLines isNum f lines' i = some (.ok o') ∧
+      ∀ p, p ∈ named o ↔ p ∈ named o' := by
+  have hr' : restrOfLines isNum lines' i = some r := by
+    unfold restrOfLines at hr ⊢
+    rw [← C05.layoutEq_norm hl]
+    exact hr
+  obtain ⟨o, h1, h2⟩ := layout_warnings_eq_missing isNum f lines i r hr h
+  obtain ⟨o', h1', h2'⟩ := layout_warnings_eq_missing isNum f lines' i r hr' h
+  exact ⟨o, o', h1, h1', fun p => (h2 p).trans (h2' p).symm⟩
+
 /-! ### concrete inputs: the hypotheses are met by non-trivial inputs, and every place where the code as it was
     before fixes/C17_1..4 (`Legacy`) differs from the property is witnessed -/
 section Witnesses
@@ -875,6 +1058,50 @@ def opsA : List Op := [.check, .delItem 3, .rename 0 ['C', '9'], .add C1, .check
 example : (∀ op ∈ opsA, op.keepsIndex = true) ∧ wfFile (run fileA opsA) = true := by decide +kernel
 example : missing (run fileA opsA) restrR1 = [(['C', '2'], 1)] ∧
     (assign (run fileA opsA) restrR1).map reported = .ok [(['C', '2'], 1)] := by decide +kernel
+
+/-! #### layout of the restraint in the file, several absent atoms with names that differ in one character -/
+
+def isNumW (t : Str) : Bool := t.all fun c => c.isDigit || c == '.'
+
+/-- residue 0: C1 C2 C3 C1A;  RESI CCF3 1: C1 C2 C3 C1A -/
+def fileL : File :=
+  { atoms := [⟨"C1".toList, 0⟩, ⟨"C2".toList, 0⟩, ⟨"C3".toList, 0⟩, ⟨"C1A".toList, 0⟩,
+              ⟨"C1".toList, 1⟩, ⟨"C2".toList, 1⟩, ⟨"C3".toList, 1⟩, ⟨"C1A".toList, 1⟩],
+    resis := [⟨"CCF3".toList, 1⟩] }
+
+/-- a wrapped restraint whose comment behind the `=` contains `=` and `!` and the name of an atom that does not exist;
+    the absent atom C9 stands on the continuation line; the last line has a comment that ends with `=` -/
+def linesL : List C05.Line :=
+  ["sadi_ccf3 0.02 C1 C2 = ! d = 1.54 ! C77 =".toList, "   C3 C9 ! not a wrapped line =".toList, "FVAR 0.5".toList]
+
+example : (restrOfLines isNumW linesL 0).map (fun r => (r.kw, r.atoms)) =
+    some ("SADI_CCF3".toList, ["C1".toList, "C2".toList, "C3".toList, "C9".toList]) := by decide +kernel
+example : WellFormed fileL { kw := "SADI_CCF3".toList, atoms := ["C1".toList, "C2".toList, "C3".toList, "C9".toList] } := by
+  decide +kernel
+example : (assignLines isNumW fileL linesL 0).map (·.map named) = some (.ok [("C9".toList, 1)]) := by decide +kernel
+
+/-- the continuation loop as it was before fix C05_1 (`line.rpartition('=')[0]` on the line with its comment): the cut
+    falls into the comment, the later `split('!')[0]` throws the continuation line away — C9 is never checked -/
+def assignLinesOld (isNum : Str → Bool) (f : File) (lines : List C05.Line) (i : Nat) : Option (Except PyErr Outcome) :=
+  match C05.modelLogicalLinesOld lines with
+  | .error _ => none
+  | .ok ls =>
+    match ls[i]? with
+    | none => none
+    | some g => (restrOf isNum (C05.classify g.2).spline).map (assign f)
+
+theorem old_glue_misses_atoms_of_continuation_lines :
+    (assignLinesOld isNumW fileL linesL 0).map (·.map named) = some (.ok []) ∧
+    (restrOfLines isNumW linesL 0).map (missing fileL) = some [("C9".toList, 1)] := by decide +kernel
+
+/-- several atoms absent at once whose names differ in one character behind the number: `SADI_1 C1A C1B C1C C1' C1" c1b` -/
+def restrMany : Restr :=
+  { kw := "SADI_1".toList, atoms := ["C1A".toList, "C1B".toList, "C1C".toList, "C1'".toList, "C1\"".toList, "c1b".toList] }
+example : WellFormed fileL restrMany := by decide +kernel
+example : missing fileL restrMany =
+    [("C1B".toList, 1), ("C1C".toList, 1), ("C1'".toList, 1), ("C1\"".toList, 1), ("C1B".toList, 1)] := by decide +kernel
+example : (assign fileL restrMany).map (fun o => printed o.bad) =
+    .ok ["C1\"_1".toList, "C1'_1".toList, "C1B_1".toList, "C1C_1".toList, "c1b_1".toList] := by decide +kernel
 
 end Witnesses
 
